@@ -105,6 +105,104 @@ def known_witness(ctx, kvh):
             ctx.notes.append("known finding C07-terminal-gap-split no longer reproduces: rows=%s" % rows)
 
 
+def marginal_dovetail(rng, overrides=False):
+    """two groups whose sequences overlap in a SHORT core (2..12 residues) with overhangs on both sides, the right overhang of the shorter one longer than
+    half of it: whether the overlap is worth joining is decided by a few score units, among them the terminal gap penalty of the type / of the caller"""
+    kind = rng.choice(["dna", "dna", "rna", "protein"])
+    alpha = gen.AA if kind == "protein" else (gen.RNA if kind == "rna" else gen.DNA)
+    t = rng.choice([3, 4]) if kind == "protein" else (rng.choice([0, 1]) if kind == "dna" else 2)
+    core = gen.rand_seq(rng, alpha, rng.randint(2, 12))
+    la, lb = rng.randint(6, 40), rng.randint(4, 30)
+    a = gen.rand_seq(rng, alpha, la) + core
+    b = core + gen.rand_seq(rng, alpha, lb + len(core))
+    if rng.random() < 0.3:
+        a, b = b[::-1], a[::-1]          # mirror image: the overhang on the left end
+    ka, kb = rng.choice([(2, 2), (2, 2), (2, 3), (3, 2), (3, 3), (1, 2), (2, 1)])
+    pens = [-1, -1, -1]
+    if overrides:
+        scale = 30.0 if t == 2 else (8.0 if t == 4 else 1.0)
+        for k in rng.sample(range(3), rng.choice([1, 1, 2, 3])):
+            pens[k] = rng.choice([0, 0.5, 1, 2, 3, 5, 8]) * scale if k == 2 else rng.choice([1, 2, 4, 6, 8, 12]) * scale
+    return dict(kind=kind, a=a, b=b, t=t, pens=pens, ka=ka, kb=kb, bt=0 if kind == "protein" else 1, threads=rng.choice([1, 4]))
+
+
+def judge(ctx, kvh, todo):
+    """certify each planted case with the reference DP under exactly its type and penalties, run kalign on the certified ones and compare; returns the failures"""
+    conv = []
+    for d in todo:
+        alph = 23 if d["kind"] == "protein" else 5
+        conv += ["convert %d %s" % (alph, d["a"]), "convert %d %s" % (alph, d["b"])]
+    rc, oc, err = C.run_lines(kvh, conv, env=C.SAN_ENV)
+    refs = []
+    for k, d in enumerate(todo):
+        d["ca"], d["cb"] = oc[2 * k], oc[2 * k + 1]
+        pb = [fbits(x) if x != -1 else NEG1 for x in d["pens"]]
+        refs.append("refdp %d %d %s %s %s %s %s" % (d["bt"], d["t"], pb[0], pb[1], pb[2], d["ca"], d["cb"]))
+    from concurrent.futures import ThreadPoolExecutor
+    chunks = [refs[i::C.NCPU] for i in range(C.NCPU)]
+    with ThreadPoolExecutor(C.NCPU) as ex:
+        outs = list(ex.map(lambda ch: C.run_lines(kvh, ch, env=C.SAN_ENV)[1] if ch else [], chunks))
+    ro = [None] * len(refs)
+    for ci, ch in enumerate(chunks):
+        for k in range(len(ch)):
+            ro[ci + k * C.NCPU] = outs[ci][k] if k < len(outs[ci]) else ""
+    cases = []
+    for d, r in zip(todo, ro):
+        ctx.evaluations += 1
+        if not r or not r.startswith("cert="):
+            ctx.count("ref_failed")
+            continue
+        kv = dict(x.split("=") for x in r.split())
+        scale = 60.0 if d["t"] == 2 else (10.0 if d["t"] == 4 else 1.0)
+        margin = scale * (0.5 + 0.002 * (len(d["a"]) + len(d["b"]))) * d["ka"] * d["kb"] / (d["ka"] * d["kb"])
+        d["cert"], d["cols"] = float(kv["cert"]), [int(x) for x in kv["cols"].split(",")]
+        if d["cert"] <= margin:
+            ctx.count("not_certified")
+            continue
+        recs = [("a%d" % i, d["a"]) for i in range(d["ka"])] + [("b%d" % i, d["b"]) for i in range(d["kb"])]
+        # the detected kind must be the intended one, else the parameters are not the ones certified
+        c = Case(recs, d["t"], d["pens"][0], d["pens"][1], d["pens"][2], threads=d["threads"], fmt="fasta")
+        c.d = d
+        cases.append(c)
+    sysrun.run_cases(kvh, cases)
+    fails = []
+    for c in cases:
+        d = c.d
+        if c.crashed:
+            fails.append(("crash", c.describe()))
+            continue
+        if c.rc != 0:
+            ctx.count("rejected_(kind_misdetected)")
+            continue
+        rows = dict(sysrun.parse_output(c))
+        ra = [rows["a%d" % i] for i in range(d["ka"])]
+        rb = [rows["b%d" % i] for i in range(d["kb"])]
+        if len(set(ra)) != 1 or len(set(rb)) != 1:
+            from props import c12
+            if not c12.premise_ok(c.records, d["kind"]):
+                # one sequence contains the other (guide-tree distance 0 as for a duplicate): the tree need not join the copies first,
+                # so the groups of the property are not formed; not a statement about the kernels (see C12's premise)
+                ctx.count("copies_not_grouped_(containment)")
+                continue
+            fails.append(("identical copies received different rows", dict(case=c.describe(), rows=rows)))
+            continue
+        got = pair_cols(ra[0], rb[0])
+        ctx.count("certified_compared")
+        ctx.count("len_%s" % ("ge500" if max(len(d["a"]), len(d["b"])) >= 500 else "lt500"))
+        ctx.count("groups_%dx%d" % (d["ka"], d["kb"]))
+        if min(len(d["a"]), len(d["b"])) >= 500 and d["threads"] > 1:
+            ctx.count("parallel_controller_%dx%d" % (min(d["ka"], 2), min(d["kb"], 2)))
+        if got != d["cols"]:
+            fails.append(("kalign's alignment differs from the certified unique optimum (margin %.2f)" % d["cert"],
+                          dict(case=c.describe(), expected_cols=d["cols"], got_cols=got, rows=[ra[0], rb[0]])))
+            continue
+        if any(x != 0 for x in got):
+            ctx.nontriv((d["a"], d["b"], d["t"], tuple(d["pens"]), d["ka"], d["kb"]))
+        if len(ctx.samples) < 3 and len(d["a"]) <= 40:
+            ctx.sample(dict(a=d["a"], b=d["b"], type=d["t"], pens=d["pens"], copies=(d["ka"], d["kb"]), certified_margin=d["cert"], rows=[ra[0], rb[0]]))
+    return fails
+
+
 def run(ctx):
     ctx.trusted = list(C.TRUSTED_COMMON) + ["A-float: kernels run in binary32; the Lean Float32 model is tied bit-for-bit, theorems about path shape hold for any score carrier",
                                             "independent full-matrix reference DP (harness/ops_ref.c, doubles) as oracle; its *robust* certificate (lo(P) > hi(Q)+margin for all Q != P) "
@@ -206,78 +304,8 @@ def run(ctx):
             pens = [-1, -1, -1]
             threads = rng.choice([1, 4])
         todo.append(dict(kind=kind, a=a, b=b, t=t, pens=pens, ka=ka, kb=kb, bt=0 if kind == "protein" else 1, threads=threads))
-    conv = []
-    for d in todo:
-        alph = 23 if d["kind"] == "protein" else 5
-        conv += ["convert %d %s" % (alph, d["a"]), "convert %d %s" % (alph, d["b"])]
-    rc, oc, err = C.run_lines(kvh, conv, env=C.SAN_ENV)
-    refs = []
-    for k, d in enumerate(todo):
-        d["ca"], d["cb"] = oc[2 * k], oc[2 * k + 1]
-        pb = [fbits(x) if x != -1 else NEG1 for x in d["pens"]]
-        refs.append("refdp %d %d %s %s %s %s %s" % (d["bt"], d["t"], pb[0], pb[1], pb[2], d["ca"], d["cb"]))
-    from concurrent.futures import ThreadPoolExecutor
-    chunks = [refs[i::C.NCPU] for i in range(C.NCPU)]
-    with ThreadPoolExecutor(C.NCPU) as ex:
-        outs = list(ex.map(lambda ch: C.run_lines(kvh, ch, env=C.SAN_ENV)[1] if ch else [], chunks))
-    ro = [None] * len(refs)
-    for ci, ch in enumerate(chunks):
-        for k in range(len(ch)):
-            ro[ci + k * C.NCPU] = outs[ci][k] if k < len(outs[ci]) else ""
-    cases = []
-    for d, r in zip(todo, ro):
-        ctx.evaluations += 1
-        if not r or not r.startswith("cert="):
-            ctx.count("ref_failed")
-            continue
-        kv = dict(x.split("=") for x in r.split())
-        scale = 60.0 if d["t"] == 2 else (10.0 if d["t"] == 4 else 1.0)
-        margin = scale * (0.5 + 0.002 * (len(d["a"]) + len(d["b"]))) * d["ka"] * d["kb"] / (d["ka"] * d["kb"])
-        d["cert"], d["cols"] = float(kv["cert"]), [int(x) for x in kv["cols"].split(",")]
-        if d["cert"] <= margin:
-            ctx.count("not_certified")
-            continue
-        recs = [("a%d" % i, d["a"]) for i in range(d["ka"])] + [("b%d" % i, d["b"]) for i in range(d["kb"])]
-        # the detected kind must be the intended one, else the parameters are not the ones certified
-        c = Case(recs, d["t"], d["pens"][0], d["pens"][1], d["pens"][2], threads=d["threads"], fmt="fasta")
-        c.d = d
-        cases.append(c)
-    sysrun.run_cases(kvh, cases)
-    fails = []
-    for c in cases:
-        d = c.d
-        if c.crashed:
-            fails.append(("crash", c.describe()))
-            continue
-        if c.rc != 0:
-            ctx.count("rejected_(kind_misdetected)")
-            continue
-        rows = dict(sysrun.parse_output(c))
-        ra = [rows["a%d" % i] for i in range(d["ka"])]
-        rb = [rows["b%d" % i] for i in range(d["kb"])]
-        if len(set(ra)) != 1 or len(set(rb)) != 1:
-            from props import c12
-            if not c12.premise_ok(c.records, d["kind"]):
-                # one sequence contains the other (guide-tree distance 0 as for a duplicate): the tree need not join the copies first,
-                # so the groups of the property are not formed; not a statement about the kernels (see C12's premise)
-                ctx.count("copies_not_grouped_(containment)")
-                continue
-            fails.append(("identical copies received different rows", dict(case=c.describe(), rows=rows)))
-            continue
-        got = pair_cols(ra[0], rb[0])
-        ctx.count("certified_compared")
-        ctx.count("len_%s" % ("ge500" if max(len(d["a"]), len(d["b"])) >= 500 else "lt500"))
-        ctx.count("groups_%dx%d" % (d["ka"], d["kb"]))
-        if min(len(d["a"]), len(d["b"])) >= 500 and d["threads"] > 1:
-            ctx.count("parallel_controller_%dx%d" % (min(d["ka"], 2), min(d["kb"], 2)))
-        if got != d["cols"]:
-            fails.append(("kalign's alignment differs from the certified unique optimum (margin %.2f)" % d["cert"],
-                          dict(case=c.describe(), expected_cols=d["cols"], got_cols=got, rows=[ra[0], rb[0]])))
-            continue
-        if any(x != 0 for x in got):
-            ctx.nontriv((d["a"], d["b"], d["t"], tuple(d["pens"]), d["ka"], d["kb"]))
-        if len(ctx.samples) < 3 and len(d["a"]) <= 40:
-            ctx.sample(dict(a=d["a"], b=d["b"], type=d["t"], pens=d["pens"], copies=(d["ka"], d["kb"]), certified_margin=d["cert"], rows=[ra[0], rb[0]]))
+    todo += [marginal_dovetail(rng) for _ in range(60 if ctx.quick else 600)]
+    fails = judge(ctx, kvh, todo)
     for why, rep in fails[:5]:
         ctx.violation(why, dict(kind="oracle", detail=rep))
     C.report_diffs(ctx, diffs, fails, "DP kernels / controllers / profiles")
